@@ -242,9 +242,31 @@ func (i *interpreter) axiomOnce(key string, t *sym.Term) {
 }
 
 // mathLog models math.Log on the extended reals with ln uninterpreted.
+// constBracket links an uninterpreted transcendental applied to a constant argument to the
+// value the real library computes: |uf(c) - native| <= eps (sound: the Go math functions are
+// accurate to well below this tolerance).
+func (i *interpreter) constBracket(key string, app *sym.Term, native float64) {
+	if native != native || math.IsInf(native, 0) {
+		return
+	}
+	c := i.ctx
+	eps := 1e-11*math.Abs(native) + 1e-14
+	lo := new(big.Rat)
+	hi := new(big.Rat)
+	if lo.SetFloat64(native-eps) == nil || hi.SetFloat64(native+eps) == nil {
+		return
+	}
+	i.axiomOnce(key, c.And(c.Le(c.RealC(lo), app), c.Le(app, c.RealC(hi))))
+}
+
 func (i *interpreter) mathLog(x value) value {
 	if f, ok := x.(float64); ok {
-		return math.Log(f)
+		// special points stay concrete; other concrete arguments go through the same
+		// uninterpreted ln as symbolic ones (bracketed by the native value), so that equal
+		// arguments give equal results whichever way they were computed
+		if f != f || f <= 0 || math.IsInf(f, 0) || f == 1 {
+			return math.Log(f)
+		}
 	}
 	a := i.toFV(x)
 	c := i.ctx
@@ -255,6 +277,10 @@ func (i *interpreter) mathLog(x value) value {
 	arg := c.Ite(pos, a.V, one)
 	ln := i.ufApp("ln", arg)
 	k := fmt.Sprint(arg.ID)
+	if arg.IsConst() {
+		af, _ := arg.R.Float64()
+		i.constBracket("lnconst"+k, ln, math.Log(af))
+	}
 	// axioms at this application: ln 1 = 0; ln x <= x-1; ln x >= 1 - 1/x ; sign
 	i.axiomOnce("ln1", c.Eq(i.ufApp("ln", one), z))
 	i.axiomOnce("lnub"+k, c.Le(ln, c.Sub(arg, one)))
@@ -290,7 +316,9 @@ func (i *interpreter) mathLog(x value) value {
 // mathExp models math.Exp with exp uninterpreted: exp x > 0, exp x >= 1 + x, exp 0 = 1, monotone.
 func (i *interpreter) mathExp(x value) value {
 	if f, ok := x.(float64); ok {
-		return math.Exp(f)
+		if f != f || math.IsInf(f, 0) || f == 0 || math.Abs(f) > 700 {
+			return math.Exp(f)
+		}
 	}
 	a := i.toFV(x)
 	c := i.ctx
@@ -299,6 +327,10 @@ func (i *interpreter) mathExp(x value) value {
 	arg := c.Ite(a.Inf, z, a.V)
 	ex := i.ufApp("exp", arg)
 	k := fmt.Sprint(arg.ID)
+	if arg.IsConst() {
+		af, _ := arg.R.Float64()
+		i.constBracket("expconst"+k, ex, math.Exp(af))
+	}
 	i.axiomOnce("exp0", c.Eq(i.ufApp("exp", z), one))
 	i.axiomOnce("exppos"+k, c.Lt(z, ex))
 	i.axiomOnce("explb"+k, c.Le(c.Add(one, arg), ex))
@@ -330,7 +362,9 @@ func (i *interpreter) mathExp(x value) value {
 func (i *interpreter) mathPow(x, y value) value {
 	if f, ok := x.(float64); ok {
 		if g, ok := y.(float64); ok {
-			return math.Pow(f, g)
+			if !(f > 0 && !math.IsInf(f, 0) && !math.IsInf(g, 0) && g == g && f != 1 && g != math.Trunc(g)) {
+				return math.Pow(f, g)
+			}
 		}
 	}
 	a, b := i.toFV(x), i.toFV(y)
@@ -381,6 +415,11 @@ func (i *interpreter) mathPow(x, y value) value {
 	}
 	p := i.ufApp("pow", a.V, b.V)
 	k := fmt.Sprintf("%d_%d", a.V.ID, b.V.ID)
+	if a.V.IsConst() && b.V.IsConst() {
+		af, _ := a.V.R.Float64()
+		bf, _ := b.V.R.Float64()
+		i.constBracket("powconst"+k, p, math.Pow(af, bf))
+	}
 	i.axiomOnce("powpos"+k, c.Implies(c.Lt(z, a.V), c.Lt(z, p)))
 	i.axiomOnce("pow1"+k, c.Implies(c.Eq(a.V, one), c.Eq(p, one)))
 	i.axiomOnce("pow0"+k, c.Implies(c.Eq(b.V, z), c.Eq(p, one)))
